@@ -48,13 +48,17 @@ def thread_roots(fb):
     return res
 
 
-def block_granularity(rep, fb, rule):
-    """each process() call of the engines sits alone in a try/catch(...) without loops (shared by C01 R01.4 and C07 R07.5)"""
-    for eq in ENGINES:
+def call_granularity(rep, fb, rule, callee, what, funcs=None, min_sites=1):
+    """each call of `callee` in the engines sits alone in a try/catch(...) without loops: a failure of one element does not
+    skip its siblings (shared by C01 R01.4, C07 R07.5 for process() and C11 R11.7 for invoke())"""
+    short = callee.split('::')[-1]
+    for eq in (funcs or ENGINES):
         f = fb.fn(eq)
+        sites = 0
         for n in f.walk():
-            if n.get('callee', {}).get('q') != 'uscxml::MicroStepCallbacks::process':
+            if n.get('callee', {}).get('q') != callee:
                 continue
+            sites += 1
             tr = None
             for a in f.ancestors(n):
                 if a['k'] == 'CXXTryStmt':
@@ -62,17 +66,23 @@ def block_granularity(rep, fb, rule):
                     break
                 if a['k'] in ('ForStmt', 'CXXForRangeStmt', 'WhileStmt', 'DoStmt'):
                     break
-            ordinal = sum(1 for x in f.walk() if x.get('callee', {}).get('q') == 'uscxml::MicroStepCallbacks::process' and x['loc'][1] < n['loc'][1])
-            sig = '%s|process#%d' % (eq.split('::')[1], ordinal)
+            ordinal = sum(1 for x in f.walk() if x.get('callee', {}).get('q') == callee and x['loc'][1] < n['loc'][1])
+            sig = '%s|%s#%d' % (eq.split('::')[1], short, ordinal)
             if tr is None:
-                rep.fail(rule, sig, locstr(n), 'process() is not directly enclosed by a try inside its loop: an error would skip the following blocks too')
+                rep.fail(rule, sig, locstr(n), '%s() is not directly enclosed by a try inside its loop: an error would skip the following %s too' % (short, what))
                 continue
             body = tr['c'][0]
-            calls = [s for s in sub(body) if s.get('callee', {}).get('q') == 'uscxml::MicroStepCallbacks::process']
+            calls = [s for s in sub(body) if s.get('callee', {}).get('q') == callee]
             loops = [s for s in sub(body) if s['k'] in ('ForStmt', 'CXXForRangeStmt', 'WhileStmt', 'DoStmt')]
             catch_all = any(h.get('caught') == '...' for h in tr['c'][1:])
             rep.check(len(calls) == 1 and not loops and catch_all, rule, sig, locstr(n),
-                      'try body holds %d process() call(s), %d loop(s); catch(...): %s' % (len(calls), len(loops), catch_all))
+                      'try body holds %d %s() call(s), %d loop(s); catch(...): %s' % (len(calls), short, len(loops), catch_all))
+        rep.minimum(rule, sites, min_sites, '%s() sites in %s' % (short, eq))
+
+
+def block_granularity(rep, fb, rule):
+    """each process() call of the engines sits alone in a try/catch(...) without loops (shared by C01 R01.4 and C07 R07.5)"""
+    call_granularity(rep, fb, rule, 'uscxml::MicroStepCallbacks::process', 'blocks')
     # inside a block an error ends the block: every handler of BasicContentExecutor::process leaves by a throw, so the failure of a nested
     # element reaches the engine's per-block handler instead of letting the remaining elements of the block run
     pr = fb.fn('uscxml::BasicContentExecutor::process')
